@@ -18,8 +18,9 @@ level and hash function:
                           (open finding C11-F2); the same history with different values is recoverable (example)
   C11_recoverable_partial MAIN, WITH GC: for every history of Update / Delete / Root() / Commit(any level) / DeleteNodes — GC
                           passes in any position (also while changes are uncommitted) and any number — under
-                          `NoSharedContent` (at no time of the history two live positions hold nodes with equal hash; the
-                          exact complement of the matcher of finding C11-F2): every node of the last committed trie stays
+                          `NoSharedContent` (at no time of the history two live positions hold nodes with equal hash — a
+                          SUFFICIENT condition, stronger than the complement of finding C11-F2: it also constrains
+                          contents that are never committed): every node of the last committed trie stays
                           in storage (`C11_gc_safe`), so a history that ends committed is recoverable: the reopened trie
                           is observationally identical to the live one, with the spec's answers
                           (`C11_gc_answers_are_spec`); `C11_crash_gc`: after EVERY prefix of the history — i.e. at every
@@ -50,6 +51,17 @@ level and hash function:
                           the harness opens the empty trie for weight 0) the same four conclusions: `C11_reload_gc_safe`,
                           `C11_reload_recoverable`, `C11_reload_answers_are_spec` (also right after a reload:
                           `C11_reload_resumes`), `C11_reload_crash`.
+  C11_split_*             Commit only RETURNS its batch, the caller writes it (Model/WmptSplit.lean: `commitB` / `writeB`). OPEN
+                          FINDING C11-gc-between-commit-and-batch-write: `C11_split_two_gc_breaks` (decide) — two DeleteNodes
+                          passes between a Commit and the write of its batch delete nodes of the root that is still the last
+                          one in storage. Partial theorems under `splitOK` (between a Commit and its write only Root() reads
+                          and AT MOST ONE pass): `C11_split_eq_fused` (the split history ends in exactly the state of the
+                          fused one, so every theorem above applies), `C11_split_crash_safe` / `C11_split_crash_answers` (at
+                          EVERY intermediate point, also between Commit and write, the last durably committed content is
+                          stored and a trie reopened from its root answers every block).
+  C11_gc_safe_any_value / C11_recoverable_any_value   `Update(key, empty value, w)` — the delete spelling of the API, excluded
+                          by `HOp.wf` — is `Delete(key)` step by step (`hrun_normDel`): the GC theorems for histories whose
+                          updates carry ANY value (`HOp.wf'`), against the spec of the normalised history.
 Histories containing Rollback / RollbackTrie are treated in Props/C13.
 -/
 import Verif.Lemmas.WmptOps
@@ -60,6 +72,8 @@ import Verif.Lemmas.WmptHistoryInv
 import Verif.Lemmas.WmptCrash
 import Verif.Lemmas.WmptGcInv
 import Verif.Lemmas.WmptReload
+import Verif.Lemmas.WmptSplit
+import Verif.Lemmas.WmptEmptyUpd
 import Verif.Model.WmptToy
 namespace Verif.Props.C11
 open Verif.Wmpt
@@ -186,7 +200,7 @@ example :
 /-! ### GC safety -/
 
 /-- at no time of the history two live positions hold nodes with equal hash (nor does a node hash to 32 zero bytes or
-    to the hash of the empty string): the complement of the matcher of finding C11-F2, plus sizes below 2^64 -/
+    to the hash of the empty string): a sufficient condition for (stronger than) the complement of finding C11-F2, plus sizes below 2^64 -/
 def NoSharedContent (H : Bytes → Bytes) (ops : List HOp) : Prop :=
   ∀ p q, ops = p ++ q → RepOps.PTOK (specRun p) ∧ Distinct H (specRun p)
 
@@ -377,5 +391,66 @@ theorem C11_recoverable_false : ¬ C11_recoverable := by
     simp only [opsF2, List.mem_cons, List.not_mem_nil, or_false] at hop
     rcases hop with h | h | h | h | h | h | h <;> subst h <;> simp [HOp.keyOK, keyA, keyD]
   exact opsF2_breaks.2.2 (h toyH opsF2 (fun x => by simp [toyH, be256]) hk opsF2_breaks.1 opsF2_breaks.2.1)
+
+/-! ### Commit and the write of its batch as separate operations -/
+
+/-- under `splitOK` (between a Commit and the write of its batch: only Root() reads and at most ONE DeleteNodes pass) a split
+    history whose last batch is written ends in EXACTLY the state of the fused history — trie, storage and write log -/
+theorem C11_split_eq_fused (H : Bytes → Bytes) (ops : List SOp) (hok : splitOK false 0 ops = true)
+    (hw : (srun H ops).pend = none) : (srun H ops).h = hrun H (fuse ops) :=
+  split_eq_fused ops hok hw
+
+/-- crash clause for split histories (the `_partial` theorem of finding C11-gc-between-commit-and-batch-write): after EVERY
+    prefix — also between a Commit and the write of its batch — every node of the last DURABLY committed content is in
+    storage -/
+theorem C11_split_crash_safe (H : Bytes → Bytes) (hlen : ∀ x, (H x).length = 32) (ops : List SOp)
+    (hall : ∀ op ∈ fuse ops, op.plainGC ∧ op.wf) (hns : NoSharedContent H (fuse ops))
+    (hsplit : splitOK false 0 ops = true) (p q : List SOp) (hpq : ops = p ++ q) :
+    StoredAll H (srun H p).h.t.store (durableSpec p) :=
+  split_crash_safe hlen ops hall hns hsplit p q hpq
+
+/-- …and the trie reopened there from the durable (root hash, weight) answers every block with the owner's key and the
+    honest, verifying proof -/
+theorem C11_split_crash_answers (H : Bytes → Bytes) (hlen : ∀ x, (H x).length = 32) (ops : List SOp)
+    (hall : ∀ op ∈ fuse ops, op.plainGC ∧ op.wf) (hns : NoSharedContent H (fuse ops))
+    (hsplit : splitOK false 0 ops = true) (p q : List SOp) (hpq : ops = p ++ q)
+    (b : Nat) (hb1 : 1 ≤ b) (hb : b ≤ (durableSpec p).weight) :
+    ∃ k v key, ownerSpec (durableSpec p).entries b = some (k, v) ∧ RepMore.keybytesToHex key = k ∧ key.length = 32 ∧
+      (blockProof H { root := .hashRef (PT.hash H (durableSpec p)) (durableSpec p).weight,
+                      store := (srun H p).h.t.store } b).2 =
+        .ok (key, Cbor.encTrie (((durableSpec p).proofPairs H b).map Cbor.encBase)) ∧
+      verifyPairs H (((durableSpec p).proofPairs H b).map PairD.ok) b = .ok (PT.hash H (durableSpec p), v) :=
+  split_crash_answers hlen ops hall hns hsplit p q hpq b hb1 hb
+
+/-- the negation without the hypothesis (OPEN FINDING C11-gc-between-commit-and-batch-write; toy hash, `decide`): with TWO
+    passes between the Commit and the write the protocol predicate fails and the previous durable root (weight 5) cannot
+    answer block 1 any more; with ONE pass it answers every block -/
+theorem C11_split_two_gc_breaks :
+    splitOK false 0 (splitCommon ++ [.op .gc, .op .gc]) = false ∧
+    splitOK false 0 (splitCommon ++ [.op .gc]) = true ∧
+    (srun toyH (splitCommon.take 3)).h.t.weight = 5 ∧
+    Res.isOk (blockProof toyH (durableReopen (splitCommon ++ [.op .gc, .op .gc])) 1).2 = false ∧
+    Res.isOk (blockProof toyH (durableReopen (splitCommon ++ [.op .gc])) 1).2 = true ∧
+    (List.range' 1 5).all (fun b => Res.isOk (blockProof toyH (durableReopen (splitCommon ++ [.op .gc])) b).2) = true :=
+  split_two_gc_breaks
+
+/-! ### updates with any value (an empty value is the delete spelling) -/
+
+/-- step by step, `Update(key, empty, w)` is `Delete(key)`: the run of a history equals the run of its normalisation -/
+theorem C11_empty_value_is_delete (H : Bytes → Bytes) (hlen : ∀ x, (H x).length = 32) (ops : List HOp)
+    (hall : ∀ op ∈ ops, op.plainGC ∧ op.wf') (hns : NoSharedContent H (ops.map HOp.normDel)) :
+    hrun H ops = hrun H (ops.map HOp.normDel) :=
+  hrun_normDel hlen ops hall hns
+
+theorem C11_gc_safe_any_value (H : Bytes → Bytes) (hlen : ∀ x, (H x).length = 32) (ops : List HOp)
+    (hall : ∀ op ∈ ops, op.plainGC ∧ op.wf') (hns : NoSharedContent H (ops.map HOp.normDel)) :
+    StoredAll H (hrun H ops).t.store (committedRun (ops.map HOp.normDel)) :=
+  gc_stored_wf' hlen ops hall hns
+
+theorem C11_recoverable_any_value (H : Bytes → Bytes) (hlen : ∀ x, (H x).length = 32) (ops : List HOp)
+    (hall : ∀ op ∈ ops, op.plainGC ∧ op.wf') (hns : NoSharedContent H (ops.map HOp.normDel))
+    (hd : (hrun H ops).t.root.dirty = false) :
+    sameAnswers H (reopen H (hrun H ops).t) (hrun H ops).t :=
+  gc_recoverable_wf' hlen ops hall hns hd
 
 end Verif.Props.C11
